@@ -167,6 +167,33 @@ def oracle(spec):
         if d:
             fails.append({"fingerprint": "C07:reuse:%s:%s" % (d[0][0], d[0][1]), "clause": "reuse_internal_data with edited loads",
                           "detail": {"first": d[:3]}})
+        # ... then a structural edit (one pipe taken out of service) and a call that updates the matrix but does NOT ask for
+        # the stored data: nothing of the earlier structure may be left over
+        live = [i for i, p in enumerate(s2["pipes"]) if p["in_service"]]
+        if live and not fails:
+            k = live[len(live) // 2]
+            s3 = copy.deepcopy(s2)
+            s3["pipes"][k]["in_service"] = False
+            e3 = None
+            try:
+                net.pipe.loc[net.pipe.index[k], "in_service"] = False
+                pp.pipeflow(net, **dict(base_opts, only_update_hydraulic_matrix=True))
+            except Exception as e:
+                e3 = e
+            nc, ec = netgen.try_run(s3, **base_opts)
+            from pandapipes.pf.pipeflow_setup import PipeflowNotConverged
+            if e3 is not None or ec is not None:
+                if (e3 is None) != (ec is None) and not isinstance(e3 or ec, PipeflowNotConverged):
+                    fails.append({"fingerprint": "C07:reuse-then-structural-edit:raises:%s" % type(e3 or ec).__name__,
+                                  "clause": "a call without reuse_internal_data after a reusing call and a structural edit",
+                                  "detail": {"update_run": repr(e3), "fresh": repr(ec), "pipe_position": k}})
+            elif not (oracles.degenerate(net) or oracles.degenerate(nc)):
+                oracles.mask_zero_flow_friction(net, nc)
+                d = oracles.compare_results(net, nc, atol=1e-6, rtol=1e-5)
+                if d:
+                    fails.append({"fingerprint": "C07:reuse-then-structural-edit:%s:%s" % (d[0][0], d[0][1]),
+                                  "clause": "a call without reuse_internal_data after a reusing call and a structural edit",
+                                  "detail": {"first": d[:3], "pipe_position": k}})
     return {"status": "ok", "failures": fails, "hash": netgen.structure_hash(spec) + v, "nontrivial": netgen.nontrivial(spec),
             "tags": [v, base_opts.get("mode", "hydraulics")], "sample": dict(netgen.summarize(spec), variant=v)}
 
